@@ -178,6 +178,20 @@ def sc_close_join(params, obs, save):
         armed.append(1)
         pool.grow(params['grow_mid_close'])
         obs['mid_reached'] = mid.wait(10)
+    producers = []
+    for k in range(params.get('blocked_producers', 0)):
+        # producers waiting for a put-lock slot at the moment of close()
+        box = {'tag': 'late.%d' % k}
+
+        def produce(box=box):
+            box['h'] = pool.apply_async(tasks.t_value, (box['tag'], 0.05))
+            box['returned'] = time.monotonic()
+        th = threading.Thread(target=produce, daemon=True)
+        th.start()
+        producers.append((box, th))
+    if producers:
+        time.sleep(0.2)
+        obs['producers_blocked_at_close'] = sum(1 for b, _t in producers if 'returned' not in b)
     log('close_call')
     t0 = time.monotonic()
     pool.close()
@@ -207,6 +221,16 @@ def sc_close_join(params, obs, save):
     obs['threads_after_join'] = _thread_names(left)
     obs['results'] = [[job, _collect(job, h, 0.5)] for job, h in handles]
     obs['cache_left'] = len(pool._cache)
+    pr = []
+    for box, th in producers:
+        th.join(3)
+        if 'returned' not in box:
+            pr.append([box['tag'], 'still_blocked', None])
+        elif box['h'] is None:
+            pr.append([box['tag'], 'refused', None])
+        else:
+            pr.append([box['tag'], 'handle', _collect({'kind': 'apply'}, box['h'], 0.5)])
+    obs['producers'] = pr
     obs['worst_stall'] = hb.stop()
     save()
     try:
